@@ -388,7 +388,7 @@ Proof.
   destruct p; cbn [lg_args]; [|discriminate]. apply IH. exact H.
 Qed.
 
-(* fixes.deinterpolate_logging_args (f-string form, after a03c366): for arguments whose str()/repr()/ascii() do not
+(* fixes.deinterpolate_logging_args (f-string form, after 79e10b7): for arguments whose str()/repr()/ascii() do not
    raise and whose format(v, "") is str(v), the logging call gives the same outcome, whether the level is enabled or not *)
 Theorem lg_rule_partial : forall objs ps msg args enabled,
   lg_rule ps = Some (msg, args) -> lg_benign objs ps = true ->
@@ -455,7 +455,7 @@ Proof.
   split; [reflexivity|]. split; [reflexivity|]. vm_compute. discriminate.
 Qed.
 
-(* the rule before a03c366 (str.format placeholders): the line is lost whenever there is a field *)
+(* the rule before 79e10b7 (str.format placeholders): the line is lost whenever there is a field *)
 Theorem lg_rule_old_refuted : exists objs ps msg args,
   lg_benign objs ps = true /\ lg_rule_old ps = Some (msg, args) /\
   lg_before objs true ps = LEmit (Some [97; 61; 49]%N) /\ lg_after objs true msg args = LEmit None.
